@@ -15,6 +15,7 @@
 #include <stdexcept>
 #include <streambuf>
 #include <string>
+#include <thread>
 #include <vector>
 
 namespace {
@@ -220,6 +221,12 @@ void vf_region_end(int) {}
 uint64_t vf_region_outer_stores() { return 0; }
 uint64_t vf_region_bad() { return 0; }
 bool vf_thrown_is(int) { return true; }
+void vf_concurrently(void (*fn)(void *), void * ctx)
+{
+    std::thread a(fn, ctx), b(fn, ctx), c(fn, ctx);
+    a.join(); b.join(); c.join();
+    fn(ctx);
+}
 
 std::ostream * vf_ostream() { rt_scope _r; return new std::ostream(new out_buf()); }
 std::istream * vf_istream_from(std::ostream * os, size_t len, size_t fail_at)
